@@ -284,7 +284,7 @@ Definition snd_split (case: list N) : option (N * packet * list (list N) * bool 
   match case with
   | link :: r => match parse_packet r with
                  | Some (p, n :: r1) => match parse_lists_n (N.to_nat n) r1 with
-                                        | Some (encs, fl :: ans) => Some (link, p, encs, fl =? 1, ans)      (* 1 = flush succeeds; any other value names the error kind it fails with *)
+                                        | Some (encs, fl :: ans) => Some (link, p, encs, fl mod 8 =? 1, ans)      (* flush script in base 8, one digit per flush call (the sender makes exactly one): 1 = succeeds, any other digit names the error kind *)
                                         | _ => None end
                  | _ => None end
   | [] => None
